@@ -496,3 +496,71 @@ LEMMAS['symplectic_complete'] = dict(
               'forall(i, 0, 2 * N, AcqSum(G[i], w, N) % 2 == 0)'],
     ensures=['forall(c, 0, 2 * N, w[c] == 0)'],
 )
+
+# ------------------------------------------------------------------ C14: post-selection (pure states, one observable)
+_H0, _Q0, _ob = 'old(gs_stb)', 'old(ps_stb)', 'gs_ob'
+_selp = 'DestabSel(%s, %s, 0, N)' % (_H0, _ob)
+_post_inner = [
+    'rows(gs_stb) == 2 * N', 'cols(gs_stb) == 2 * N', 'len(ps_stb) == 2 * N', 'len(ga) == 2 * N', 'len(gs_ob) == 2 * N', 'bits2(gs_stb)',
+    'implies(not update, p == 0)',
+    'implies(not update, forall(i, 0, N, implies(i < j, not anti(%s[i], %s, N))))' % (_H0, _ob),
+    'implies(update, 0 <= p < N and p < j)',
+    'implies(update, anti(%s[p], %s, N))' % (_H0, _ob),
+    'implies(update, forall(i, 0, p, not anti(%s[i], %s, N)))' % (_H0, _ob),
+    'forall(i, 0, 2 * N, same(gs_stb[i], Xor(%s[i], %s[p])) if (i < j and update and i > p and anti(%s[i], %s, N)) else same(gs_stb[i], %s[i]))'
+    % (_H0, _H0, _H0, _ob, _H0),
+    'forall(i, 0, 2 * N, ps_stb[i] == (%s[i] + %s[p] + IpowSum(%s[i], %s[p], N)) %% 4 '
+    'if (i < N and i < j and update and i > p and anti(%s[i], %s, N)) else ps_stb[i] == %s[i])' % (_Q0, _Q0, _H0, _H0, _H0, _ob, _Q0),
+    'implies(not update, pa == OrdP(%s, %s, %s, j - N, N))' % (_selp, _H0, _Q0),
+    'implies(not update, forall(c, 0, 2 * N, ga[c] == OrdG(%s, %s, j - N, c)))' % (_selp, _H0),
+    'implies(not update, bits(ga, 2 * N))',
+]
+_wp = 'Xor(%s, ga)' % _ob
+_post_rows = ('forall(i, 0, 2 * N, same(gs_stb[i], %s) if i == p else (same(gs_stb[i], %s[p]) if i == q else '
+              '(same(gs_stb[i], Xor(%s[i], %s[p])) if anti(%s[i], %s, N) else same(gs_stb[i], %s[i]))))' % (_ob, _H0, _H0, _H0, _H0, _ob, _H0))
+CONTRACTS[U + 'stabilizer_postselection'] = dict(
+    params=[('gs_stb', 'int2'), ('ps_stb', 'int1'), ('gs_ob', 'int1'), ('ps_ob', 'int')],
+    requires=['cols(gs_stb) % 2 == 0', 'inv_state(gs_stb, ps_stb, 0, cols(gs_stb) // 2)', 'len(gs_ob) == cols(gs_stb)', 'bits1(gs_ob)',
+              'ps_ob == 0 or ps_ob == 2'],
+    ensures=[
+        'rows(gs_stb) == cols(gs_stb)', 'len(ps_stb) == rows(gs_stb)', 'bits2(gs_stb)', 'gram(gs_stb, cols(gs_stb) // 2)',
+        'forall(a, 0, cols(gs_stb) // 2, ps_stb[a] == 0 or ps_stb[a] == 2)',
+        # +-P is already a stabilizer: probability 1 if the sign agrees, 0 if not, and the state is unchanged
+        'implies(no_anti(old(gs_stb), gs_ob, cols(gs_stb) // 2, cols(gs_stb) // 2), '
+        'forall(i, 0, rows(gs_stb), same(gs_stb[i], old(gs_stb)[i]) and ps_stb[i] == old(ps_stb)[i]) and '
+        'result[2] == (1 if OrdP(DestabSel(old(gs_stb), gs_ob, 0, cols(gs_stb) // 2), old(gs_stb), old(ps_stb), cols(gs_stb) // 2, cols(gs_stb) // 2) == ps_ob else 0))',
+        # otherwise the requested outcome has probability one half and the signed operator becomes a stabilizer
+        'implies(not no_anti(old(gs_stb), gs_ob, cols(gs_stb) // 2, cols(gs_stb) // 2), 2 * result[2] == 1 and '
+        'exists(pp, 0, cols(gs_stb) // 2, same(gs_stb[pp], gs_ob) and ps_stb[pp] == ps_ob and anti(old(gs_stb)[pp], gs_ob, cols(gs_stb) // 2) and '
+        'forall(i, 0, cols(gs_stb) // 2, implies(i != pp, '
+        '(same(gs_stb[i], Xor(old(gs_stb)[i], old(gs_stb)[pp])) and ps_stb[i] == (old(ps_stb)[i] + old(ps_stb)[pp] + IpowSum(old(gs_stb)[i], old(gs_stb)[pp], cols(gs_stb) // 2)) % 4) '
+        'if anti(old(gs_stb)[i], gs_ob, cols(gs_stb) // 2) else (same(gs_stb[i], old(gs_stb)[i]) and ps_stb[i] == old(ps_stb)[i])))))',
+    ],
+    modifies=['gs_stb', 'ps_stb'], returns=('=gs_stb', '=ps_stb', 'real'),
+    loops={0: dict(var='j', invariant=_post_inner,
+                   hints_head=[('lemma?', 'ipowsum_ext', ['ga', 'OrdGRow(%s, %s, j - N)' % (_selp, _H0), 'gs_stb[j - N]', 'N'])])},
+    hints={
+        'assert0': [
+            ('forall_lemma', [('i', '0', '2 * N')], 'ordg_acq', [_selp, _H0, 'N', '%s[i]' % _H0, 'N']),
+            ('forall_lemma', [('i', '0', '2 * N')], 'selacq_gram', [_selp, _H0, 'N', 'i', 'N']),
+            ('forall_lemma', [('i', '0', '2 * N')], 'acqsum_ext', ['ga', 'OrdGRow(%s, %s, N)' % (_selp, _H0), '%s[i]' % _H0, 'N']),
+            ('forall_lemma', [('i', '0', '2 * N')], 'acq_bilinear', [_ob, 'ga', '%s[i]' % _H0, 'N']),
+            ('lemma', 'symplectic_complete', [_H0, _wp, 'N']),
+            ('assert_from', 'forall(c, 0, 2 * N, ga[c] == %s[c])' % _ob,
+             ['forall(c, 0, 2 * N, %s[c] == 0)' % _wp, 'bits(ga, 2 * N)', 'bits(%s, 2 * N)' % _ob])],
+        'return': [('when', 'update', [
+            ('assert_from', 'gram(gs_stb, N)',
+             ['gram(%s, N)' % _H0, _post_rows, '0 <= p < N', 'q == p + N', 'anti(%s[p], %s, N)' % (_H0, _ob), 'N >= 1',
+              ('forall_lemma', [('i', '0', '2 * N'), ('l', '0', '2 * N')], 'acq_bilinear', ['%s[i]' % _H0, '%s[p]' % _H0, '%s[l]' % _H0, 'N']),
+              ('forall_lemma', [('i', '0', '2 * N')], 'acq_bilinear', ['%s[i]' % _H0, '%s[p]' % _H0, _ob, 'N']),
+              ('forall_lemma', [('i', '0', '2 * N'), ('l', '0', '2 * N')], 'acq_bilinear', ['%s[i]' % _H0, '%s[p]' % _H0, 'Xor(%s[l], %s[p])' % (_H0, _H0), 'N']),
+              ('forall_lemma', [('i', '0', '2 * N'), ('l', '0', '2 * N')], 'acq_antisym', ['%s[i]' % _H0, '%s[l]' % _H0, 'N']),
+              ('forall_lemma', [('i', '0', '2 * N')], 'acq_antisym', ['%s[i]' % _H0, _ob, 'N']),
+              ('lemma', 'acq_antisym', [_ob, _ob, 'N'])]),
+            ('assert_from', 'forall(a, 0, N, ps_stb[a] == 0 or ps_stb[a] == 2)',
+             ['forall(i, 0, N, ps_stb[i] == ps_ob if i == p else (ps_stb[i] == (%s[i] + %s[p] + IpowSum(%s[i], %s[p], N)) %% 4 '
+              'if anti(%s[i], %s, N) else ps_stb[i] == %s[i]))' % (_Q0, _Q0, _H0, _H0, _H0, _ob, _Q0),
+              'forall(a, 0, N, %s[a] == 0 or %s[a] == 2)' % (_Q0, _Q0), 'gram(%s, N)' % _H0, '0 <= p < N', 'ps_ob == 0 or ps_ob == 2',
+              ('forall_lemma', [('i', '0', 'N')], 'ipow_parity', ['%s[i]' % _H0, '%s[p]' % _H0, 'N'])])])],
+    },
+)
